@@ -186,6 +186,15 @@ def diamond_program(rng):
             "engine": "world", "family": "diamond"}
 
 
+def decimal_pipe_program(rng):
+    """Transfers with limits that do not add up exactly (C13._decimal): the finish times must not
+    depend on the order in which a container happens to hand out the transfers."""
+    from . import C13
+    case = C13._decimal(rng)
+    return {"scenario": case["scenario"], "plan": [], "config": {}, "engine": "world",
+            "family": "decimal-pipe"}
+
+
 def check_wake_order(sub):
     rec, cleanup = union.execute(configured(sub, {}))
     try:
@@ -207,6 +216,7 @@ def generate(rng, tier):
     batch.extend(wake_order_program(rng) for _ in range(8))
     batch.extend(absorbed_delay_program(rng) for _ in range(2))
     batch.extend(diamond_program(rng) for _ in range(6))
+    batch.extend(decimal_pipe_program(rng) for _ in range(2))
     for sub in batch:
         if rng.random() < 0.5:
             sub["gc_ticks"] = sorted(union.fault_tick(rng, 80) for _ in range(rng.randint(1, 3)))
